@@ -1,7 +1,7 @@
 # C15 — prefetch / background fetch / prefetch waiter of a layer (fs/layer, fs/reader, fs/remote, cache)
 PROPS["C15"] = dict(
     props_file="Properties/C15.v",
-    harnesses=[dict(cmd="prefetch", mod="root", model="Model.Prefetch", quick=60, thorough=3000, shard=30, coq_jobs=8,
+    harnesses=[dict(cmd="prefetch", mod="root", model="Model.Prefetch", quick=180, thorough=3000, shard=45, coq_jobs=8, race=40,
                     require=["lm.prefetch", "lm.noprefetch", "lm.none", "store.memory", "cache.fs.memory", "cache.fs.dir", "cache.http.dir",
                              "cache.dir.sync", "cache.dir.async", "layout.minchunk", "layout.zstd", "cfg.pcs>cs",
                              "op.pf", "op.pf.fail", "op.pf.stall", "op.pf.concurrent", "op.rel", "op.wait", "op.wait.concurrent",
@@ -10,7 +10,7 @@ PROPS["C15"] = dict(
                              "result.pf.ok", "result.pf.err", "result.pf.stalled", "result.pf.requests", "result.pf.keys",
                              "result.wait.ok", "result.wait.timeout", "result.bg.ok", "files.prio", "files.multichunk"]),
                # the same harness (package verif/harness/prefetchx) linked with the bbolt metadata store of /repo/cmd as well
-               dict(cmd="prefetchdb", mod="cmdmod", model="Model.Prefetch", quick=30, thorough=1500, shard=30, coq_jobs=8,
+               dict(cmd="prefetchdb", mod="cmdmod", model="Model.Prefetch", quick=90, thorough=1500, shard=45, coq_jobs=8,
                     require=["store.db", "lm.prefetch", "lm.noprefetch", "lm.none", "op.pf", "op.wait", "op.bg", "op.readprio", "op.readall", "level.fs", "op.mount", "op.check",
                              "result.pf.ok", "result.pf.requests", "result.pf.keys", "result.bg.ok", "files.prio", "files.multichunk"])],
     rule="generated tars (1-7 regular files of 0-45 KB in up to 3 directory levels, implicit parents, a hardlink, a symlink) built with the real "
@@ -42,7 +42,9 @@ PROPS["C15"] = dict(
                "after a successful prefetch (resp. background fetch), for EVERY cache history and interleaving, every read of a prioritized file (resp. any file) is served "
                "by the chunk cache alone at persist-quiescence or with a memory / sync_add cache (partial), the unrestricted statement refuted by a 2-commit witness "
                "(F25, replayed on the implementation with persistence held back); waiter: closed at most once, bodies at most once, every parked wait can always time "
-               "out, the body's end (ok or failed) or its async branch releases all present and future waits, nil is returned only then or after a timeout. "
+               "out, the body's end (ok or failed) or its async branch releases all present and future waits, nil is returned only then or after a timeout; "
+               "fs.Check (model fs_check, compared with the real fs.Check after the real fs.Mount): nil iff registered and reachable whatever the prefetch does, always returns, "
+               "waits exactly while the prefetch is pending (body not over, no async release, no earlier timeout), and only the first healthy Check ever waits. "
                "The script machine built from these definitions is run against the real layer every run; the clauses are re-checked model-free on the implementation.",
     level_note="Model (coq/Model/Prefetch.v) is hand-written. 'Never blocks forever' is proved as: the timeout step of a parked wait is enabled in every reachable state "
                "(timer firing = Go runtime). The registry-request prediction covers blob.Cache's requests exactly (for lossless compressed-blob caches) and constrains the "
@@ -54,5 +56,8 @@ PROPS["C15"] = dict(
              "coq/Model/Prefetch.v; tie = per script op: result (ok/err/timeout/stalled), registry requests of the prefetch body, Info().PrefetchSize, set of chunk keys in "
              "the chunk cache at quiescence, locality and success of reads",
              "hooks (build tag verif, add-only): fs/layer/verif_export_c15.go, fs/reader/verif_export_c15.go, fs/remote/verif_export_c15.go (accessors, prefetch timeout "
-             "setter); cache.VerifPersistHook of property C11 is used to hold back / await the persist closures"],
+             "setter); cache.VerifPersistHook of property C11 is used to hold back / await the persist closures",
+             "filesystem level (patches/C15-hook-2.diff): fs.Mount is the real function up to the creation of the FUSE server (one guarded call line returns before it for "
+             "mountpoints a harness marked); fs.Check is the real function; the task manager's 5 s silence period is shortened by a setter; the prefetch / background fetch "
+             "goroutines Mount spawns are awaited by observation (waiter probe, request log, chunk cache contents) before the harness joins them through sync.Once"],
 )
